@@ -155,6 +155,11 @@ def units(tier, seed):
         for mx in (False, True):
             descs.append(dict(engines=list(eng), gens=1, box="B_ulp", obj="lin_corner", maximize=mx, Mh=4, seed=s + k, sprout={"kind": "simple", "L": 2}, loc_maxiter=40,
                               loc_method=(None, "Nelder-Mead")[k % 2]))
+    # integer bounds arrays; a spread so wide in five dimensions that fewer than one draw in a thousand is accepted
+    for k, eng in enumerate([("SEA", "DE"), ("LHS", "CMAf"), ("DE", "SEA"), ("SOB", "LOC"), ("SHADE", "SEAX")]):
+        descs.append(dict(engines=list(eng), gens=2, box="B_int", int_bounds=True, obj=("lin_corner", "sphere_in")[k % 2], maximize=bool(k % 2), Mh=3, seed=s + k, sprout={"kind": ("simple", "nbc")[k % 2], "L": 2}))
+    for k, eng in enumerate([("SEA", "DE"), ("DE", "SEA"), ("LHS", "SHADE")]):
+        descs.append(dict(engines=list(eng), gens=1, box="B_5d", obj="sphere_in", maximize=bool(k % 2), Mh=2, seed=s + k, std_factor=3.5, sprout={"kind": "simple", "L": 1}, time_cap=60.0))
     us = [{"kind": "run", "descs": c} for c in chunks(descs, 40)]
     # a second optimisation in the same process on a SMALLER box inside the first one (zooming in), each pair in a brand-new
     # interpreter: with fresh objects throughout, and with the level-config objects kept and pointed at the new problem
